@@ -143,8 +143,13 @@ func execParsers(prop string) func(ctx *Ctx, in *Input) *Result {
 						return res
 					}
 					pr := &prs[fi]
-					where := fmt.Sprintf("variant %s, input [%s] (%s)", vn, feedStr(sc.Spec, f.Toks), f.Kind)
+					where := fmt.Sprintf("variant %s, input [%s] (%s)", vn, feedStrShort(sc.Spec, f.Toks), f.Kind)
 					res.Count("outcome_"+pr.Outcome, 1)
+					if len(f.Toks) >= 10000 {
+						res.Count("probe_parse_of_10000_tokens_or_more", 1)
+					} else if len(f.Toks) >= 1000 {
+						res.Count("probe_parse_of_1000_tokens_or_more", 1)
+					}
 					switch prop {
 					case "C01", "C07":
 						if pr.Outcome == "accept" {
@@ -156,6 +161,12 @@ func execParsers(prop string) func(ctx *Ctx, in *Input) *Result {
 							}
 							val, err := sc.G.Derivation(f.Toks, recs, pr.Fetched)
 							if prop == "C01" {
+								if !f.Sentence && err == nil && !sc.Spec.NoRec {
+									// two references disagree: the recorded reductions replay as a derivation of the input, yet the Earley
+									// recogniser says the grammar does not derive it. That is harness trouble, never a violation.
+									res.Harness = fmt.Sprintf("references disagree on grammar [%s], input [%s]: derivation replay succeeds, Earley rejects", sc.Spec.Short(), feedStr(sc.Spec, f.Toks))
+									return res
+								}
 								if !f.Sentence {
 									return fail("accepted-non-sentence", "accepted-non-sentence", "%s: accepted, but the grammar does not derive this token sequence (reductions: %v)", where, pr.Recs)
 								}
@@ -390,11 +401,11 @@ func init() {
 	}
 	defs := []def{
 		{"C01", "case = batch of grammars (textbook separators incl. conflict grammars resolved by default or precedence, operator tables, random CFGs) x 5 output variants generated under one map-order schedule (canonical / swarm alternating); inputs per grammar: random sentences, every string up to a length bound, mutated sentences, every prefix of sampled sentences (EOF at an arbitrary instant), unknown token codes. Every accepted parse is replayed as a derivation against the grammar as specified. distinct_nontrivial = distinct grammars with at least one input run.", false, 32, 1600,
-			[]string{"derivations_validated", "probe_conflict_grammar", "parses_typescript"}},
+			[]string{"derivations_validated", "probe_conflict_grammar", "parses_typescript", "probe_parse_of_1000_tokens_or_more", "probe_parse_of_10000_tokens_or_more"}},
 		{"C02", "as C01 but only grammars the reference classifies as conflict-free LALR(1); every input the Earley reference accepts must be accepted by every variant.", true, 32, 1600,
 			[]string{"sentences_checked", "parses_typescript"}},
 		{"C06", "as C01; every input the Earley reference rejects must end in the documented error (Go: panic starting with 'Grammar error'; TypeScript: null + logged grammar error) and, for conflict-free grammars, after requesting exactly (index of the first token no sentence continues with)+1 tokens. Faults: token feed truncated at every position, unknown token codes, replaced/inserted/deleted/swapped tokens.", false, 32, 1600,
-			[]string{"non_sentences_checked", "error_positions_checked", "parses_typescript"}},
+			[]string{"non_sentences_checked", "error_positions_checked", "parses_typescript", "probe_parse_of_1000_tokens_or_more", "probe_parse_of_10000_tokens_or_more"}},
 		{"C07", "as C01 with random arithmetic / string-building actions over random $i, 1-3 same-typed union fields, token values injected per declared field (other fields poisoned); the returned start value must equal the reference attribute evaluation over the validated derivation.", false, 32, 1600,
 			[]string{"values_compared", "probe_deep_tree", "parses_typescript"}},
 		{"C08", "as C01; for every input the five variants (go, go -u, go -o, go -o -u, typescript) must agree on verdict, reduction sequence, tokens requested and value; and the lookup of every (state, symbol) through each variant's generated code must equal the table built in the same run; and the uninstrumented CLI called with the variant's flags must write the same bytes as the library entry point with the corresponding mode switches.", false, 32, 1600,
@@ -431,4 +442,12 @@ func tableRecs(sc *specCtx, f *feedInfo) []ref.RecEvent {
 		shifted++
 	}
 	return out
+}
+
+// feedStrShort abbreviates very long inputs in messages.
+func feedStrShort(s *wl.Spec, toks []ref.Tok) string {
+	if len(toks) <= 60 {
+		return feedStr(s, toks)
+	}
+	return feedStr(s, toks[:25]) + fmt.Sprintf(" ... (%d tokens) ... ", len(toks)) + feedStr(s, toks[len(toks)-25:])
 }
